@@ -361,19 +361,17 @@ func colouredReportOK(report string, merged model.Forest, exts []string) string 
 			if f.Level > 1 {
 				prefix = f.Branch + " "
 			}
-			if !strings.HasPrefix(line, prefix) {
-				return fmt.Sprintf("line %q does not start with the branch %q", line, prefix)
-			}
-			body := line[len(prefix):]
+			// colour sequences may sit anywhere OUTSIDE the name (which parts are coloured is the library's choice): some
+			// occurrence of the name must have the branch before it and nothing after it once colour sequences are removed
 			found := false
-			for i := 0; i+len(f.Name) <= len(body); i++ {
-				if body[i:i+len(f.Name)] == f.Name && sgrOnly.MatchString(body[:i]) && sgrOnly.MatchString(body[i+len(f.Name):]) {
+			for i := 0; i+len(f.Name) <= len(line); i++ {
+				if line[i:i+len(f.Name)] == f.Name && sgrAny.ReplaceAllString(line[:i], "") == prefix && sgrOnly.MatchString(line[i+len(f.Name):]) {
 					found = true
 					break
 				}
 			}
 			if !found {
-				return fmt.Sprintf("line %q is not the name %q between colour sequences", line, f.Name)
+				return fmt.Sprintf("line %q is not the branch %q and the name %q (verbatim) with colour sequences around them", line, prefix, f.Name)
 			}
 		}
 		if line, ok := next(); !ok || line != "" {
